@@ -1652,6 +1652,19 @@ func toStatementApi(s *oc.Statement) *api.Statement {
 		cs.RpkiResult = api.ValidationState_VALIDATION_STATE_UNSPECIFIED
 	}
 
+	// The API enum (ADD=1, REMOVE=2, REPLACE=3) does not count like
+	// oc.BgpSetCommunityOptionTypeToIntMap (add=0, remove=1, replace=2).
+	communityAction := func(option string) api.CommunityAction_Type {
+		switch oc.BgpSetCommunityOptionType(strings.ToLower(option)) {
+		case oc.BGP_SET_COMMUNITY_OPTION_TYPE_ADD:
+			return api.CommunityAction_TYPE_ADD
+		case oc.BGP_SET_COMMUNITY_OPTION_TYPE_REMOVE:
+			return api.CommunityAction_TYPE_REMOVE
+		case oc.BGP_SET_COMMUNITY_OPTION_TYPE_REPLACE:
+			return api.CommunityAction_TYPE_REPLACE
+		}
+		return api.CommunityAction_TYPE_UNSPECIFIED
+	}
 	as := &api.Actions{
 		RouteAction: func() api.RouteAction {
 			switch s.Actions.RouteDisposition {
@@ -1666,17 +1679,8 @@ func toStatementApi(s *oc.Statement) *api.Statement {
 			if len(s.Actions.BgpActions.SetCommunity.SetCommunityMethod.CommunitiesList) == 0 {
 				return nil
 			}
-			action := api.CommunityAction_TYPE_UNSPECIFIED
-			switch oc.BgpSetCommunityOptionType(s.Actions.BgpActions.SetCommunity.Options) {
-			case oc.BGP_SET_COMMUNITY_OPTION_TYPE_ADD:
-				action = api.CommunityAction_TYPE_ADD
-			case oc.BGP_SET_COMMUNITY_OPTION_TYPE_REMOVE:
-				action = api.CommunityAction_TYPE_REMOVE
-			case oc.BGP_SET_COMMUNITY_OPTION_TYPE_REPLACE:
-				action = api.CommunityAction_TYPE_REPLACE
-			}
 			return &api.CommunityAction{
-				Type:        action,
+				Type:        communityAction(s.Actions.BgpActions.SetCommunity.Options),
 				Communities: s.Actions.BgpActions.SetCommunity.SetCommunityMethod.CommunitiesList,
 			}
 		}(),
@@ -1725,7 +1729,7 @@ func toStatementApi(s *oc.Statement) *api.Statement {
 				return nil
 			}
 			return &api.CommunityAction{
-				Type:        api.CommunityAction_Type(oc.BgpSetCommunityOptionTypeToIntMap[oc.BgpSetCommunityOptionType(s.Actions.BgpActions.SetExtCommunity.Options)]),
+				Type:        communityAction(s.Actions.BgpActions.SetExtCommunity.Options),
 				Communities: s.Actions.BgpActions.SetExtCommunity.SetExtCommunityMethod.CommunitiesList,
 			}
 		}(),
@@ -1734,7 +1738,7 @@ func toStatementApi(s *oc.Statement) *api.Statement {
 				return nil
 			}
 			return &api.CommunityAction{
-				Type:        api.CommunityAction_Type(oc.BgpSetCommunityOptionTypeToIntMap[s.Actions.BgpActions.SetLargeCommunity.Options]),
+				Type:        communityAction(string(s.Actions.BgpActions.SetLargeCommunity.Options)),
 				Communities: s.Actions.BgpActions.SetLargeCommunity.SetLargeCommunityMethod.CommunitiesList,
 			}
 		}(),
